@@ -38,6 +38,13 @@ c10_big_sound) on the row count and sampled ids.  (b) sync_individual of an exis
 Red-team round 4: several stores in ONE process with artap's own ids (`multi_store_case`): an older store B, a run into store A, B or
 A read through a view / a read-mode / a write-mode store, the run on A continued: the ids of the recorded individuals stay unique
 (reading a store never moves Individual.counter backwards) and every recorded individual has its own row with its own data.
+
+Red-team round 6 (a column whose declared type gives it NUMERIC affinity, a reader that "tidies" values): TEXT THAT LOOKS LIKE A NUMBER
+wherever the store keeps text ('2024', '007', '1e3', '3.50', '-0', ' 12 ', '0x10', 'inf', 'nan', '1_000', '+1', '.5', 2^63, non-ASCII
+digits ...): problem name and description, parameter and cost names - also several names of ONE problem that are equal as numbers and
+different as text ('1', '01', '1.0', '1e0': the store must still be created and give them back in order) -, string values and keys of
+parameter / cost descriptions, custom data (values and keys, next to the real numbers they spell), feature keys, algorithm ids: corpus
+cases 18-20 and the stream `gen_history(numeric=True)`.  The name read back must be the same str (type and spelling).
 """
 import gc
 import json
@@ -353,6 +360,25 @@ JSON_ONLY = ["\x00", "a\x00b", "\x01\x1f", "\x7f", "\r\n", "\u2028\u2029", "\ud8
 STRINGS += TOKENS
 JSTRINGS = STRINGS + JSON_ONLY
 JKEYS = KEYS + ["Infinity", "-Infinity", "NaN", "null", "true", "1e999", "\\", "a\x00b", "\ud83d", "\r\n", '"', "Infinity\x7f"]
+# red-team round 6: text that looks like a number.  Each group: strings that some reading (SQLite's NUMERIC affinity, int(), float(),
+# a JSON / YAML / CSV number parser) takes for the SAME number while they differ as text.  All are plain text to the property.
+NUM_GROUPS = [
+    ["1", "01", "1.0", "+1", "1e0", "1.", " 1", "1 ", "001", "1.00", "1E0", "0x1", "\u0661", "\uff11", "1\n", "True"],
+    ["0", "-0", "0.0", "00", "-0.0", "0e0", "+0", ".0", "0.", "0x0", "-00", " 0 ", "False", "0E5"],
+    ["1000", "1e3", "1E3", "1000.0", "1_000", "1e+3", "1.0e3", "01000", " 1000", "1,000", "1 000", "10e2", "0x3e8"],
+    ["3.5", "3.50", "03.5", "+3.5", "3.5e0", "35e-1", " 3.5 ", "3.500000000000000001", "3,5", "7/2"],
+    ["12", " 12 ", "012", "12.", "\u0661\u0662", "\uff11\uff12", "12\n", "\t12", "1_2", "0xc", "0o14", "0b1100", "12.0", "1.2e1"],
+    ["inf", "Infinity", "1e999", "1e400", "+inf", "INF", " inf", "infinity", "9e9999", "1e309"],
+    ["nan", "NaN", "NAN", "-nan", "+nan", " nan", "nan ", "NaN "],
+    ["9223372036854775807", "9223372036854775808", "9223372036854775807.0", "9.223372036854775807e18", "18446744073709551616",
+     "-9223372036854775808", "-9223372036854775809", "9007199254740993", "9007199254740992.0", "0x7fffffffffffffff"],
+    ["2024", "02024", "2024.0", "2.024e3", "2024 ", "20_24", "+2024", "2024.", "MMXXIV"],
+    ["007", "7", "7.0", "07", "0007", "7e0", "-7", "- 7", "7.", "0o7"],
+    ["0.1", "0.10", ".1", "1e-1", "0.1000000000000000055511151231257827", "00.1", "+.1", "1E-1", "0,1"],
+]
+NUMERIC = ["2024", "007", "1e3", "3.50", "-0", " 12 ", "0x10", "inf", "nan", "1_000", "-inf", "1e-400", "-1e400", "5e-324", "1d3", "1f", "1L", "0x", "e3", "1e", "--1",
+           "1.2.3", "12abc", "", "-", "+", ".", "1 2", "0.30000000000000004", "123456789012345678901234567890", "-.5e-3", "1e5", "-1", "42"]
+NUMERIC += [x for g in NUM_GROUPS for x in g if x not in NUMERIC]
 
 
 def rfloat(rng):
@@ -506,9 +532,65 @@ def rind(rng, iid, ids, dim, m, strings=False):
             "children": [rfeature_value(rng, ids, 1) if rng.random() < 0.3 else rref(rng, ids) for _ in range(rng.choice([0, 0, 0, 1, 3]))]}
 
 
-def rmeta(rng, degenerate=False, strings=False):
+def numeric_names(rng, n):
+    """n distinct names that look like numbers; half of the time all of them spell the SAME number"""
+    r = rng.random()
+    if r < 0.5:
+        return rng.sample(rng.choice([g for g in NUM_GROUPS if len(g) >= n]), n)
+    if r < 0.85:
+        return rng.sample(NUMERIC, n)
+    return [x if rng.random() < 0.5 else "x_%d" % (i + 1) for i, x in enumerate(rng.sample(NUMERIC, n))]
+
+
+def rjson_numeric(rng, depth=0):
+    """custom data dominated by number look-alikes, next to the real numbers they spell"""
+    r = rng.random()
+    if depth >= 2 or r < 0.55:
+        if rng.random() < 0.8:
+            return rng.choice(NUMERIC)
+        return rng.choice([rfinite(rng), 1, 0, 7, 2024, 1000, None, True, {"f": (3.5).hex()}, {"f": (1000.0).hex()}, {"f": "inf"}, {"ni": 12}, {"f": (-0.0).hex()}])
+    if r < 0.75:
+        items = [rjson_numeric(rng, depth + 1) for _ in range(rng.randint(0, 4))]
+        return {"t": items} if rng.random() < 0.15 else items
+    return {"d": [[k, rjson_numeric(rng, depth + 1)] for k in numeric_names(rng, rng.randint(1, 4))]}
+
+
+def numericise(rng, d):
+    """an individual of the number look-alike stream: custom data (values, keys, or the whole of it), algorithm id, feature keys"""
+    r = rng.random()
+    if r < 0.15:
+        d["custom"] = rng.choice(NUMERIC)
+    elif r < 0.9:
+        d["custom"] = {"d": [[k, rjson_numeric(rng, 1)] for k in numeric_names(rng, rng.randint(1, 4))]}
+    if rng.random() < 0.6:
+        d["algorithm_id"] = rng.choice(NUMERIC)
+    have = [x[0] for x in d["features"]]
+    for k in numeric_names(rng, rng.choice([0, 1, 2, 3])):
+        if k not in have:
+            d["features"].append([k, rfeature_value(rng, [d["id"]])])
+    return d
+
+
+def rmeta(rng, degenerate=False, strings=False, numeric=False):
     dim = rng.choice([1, 2, 2, 3, 5])
     m = rng.choice([1, 1, 2, 3])
+    if numeric:
+        # every parameter with its own disjoint box, every cost with its own direction and weight (a by-name mix-up is visible)
+        params = []
+        for i, nm in enumerate(numeric_names(rng, dim)):
+            p = [["name", nm], ["initial_value", rng.choice([10 * i + 1, {"f": (10.0 * i + 2.5).hex()}])], ["bounds", [10 * i, 10 * i + 5]]]
+            if rng.random() < 0.5:
+                p.append([rng.choice(["unit", "note", "label"] + NUMERIC[:10]), rng.choice(NUMERIC)])
+            if rng.random() < 0.3:
+                rng.shuffle(p)
+            params.append({"d": p})
+        costs = []
+        for j, nm in enumerate(numeric_names(rng, m)):
+            c = [["name", nm], ["criteria", ["minimize", "maximize"][j % 2]], ["weight", j + 1]]
+            if rng.random() < 0.5:
+                c.append([rng.choice(["unit", "label"] + NUMERIC[:10]), rng.choice(NUMERIC)])
+            costs.append({"d": c})
+        return dim, m, {"name": rng.choice(NUMERIC), "description": rng.choice(NUMERIC + ["", "d"]), "params": params, "costs": costs}
     params = []
     for i in range(dim):
         p = [["name", "x_%d" % (i + 1) if rng.random() < 0.8 else rng.choice(STRINGS[1:]) + str(i)]]
@@ -547,13 +629,15 @@ def rmeta(rng, degenerate=False, strings=False):
                     "description": rng.choice(["", "", "two\nlines", "d"] + (TOKENS if strings else [])), "params": params, "costs": costs}
 
 
-def gen_history(rng, degenerate=False, strings=False):
-    dim, m, case = rmeta(rng, degenerate, strings)
+def gen_history(rng, degenerate=False, strings=False, numeric=False):
+    dim, m, case = rmeta(rng, degenerate, strings, numeric)
     ids = rng.sample(IDS[:13], rng.randint(1, 5)) + (rng.sample(IDS[13:], rng.randint(0, 2)) if rng.random() < 0.3 else [])
     pool = {}
 
     def draw(i, slot=True):
         d = rind(rng, i, ids, dim, m, strings)
+        if numeric:
+            numericise(rng, d)
         if slot:
             d["slot"] = i
         if i in pool and rng.random() < 0.4:    # the same design again with other data (as NSGA-II writes an individual twice)
@@ -586,7 +670,7 @@ def gen_history(rng, degenerate=False, strings=False):
     for j in range(n_ops):
         if j == reopen_at:
             ops.append({"op": "reopen", "mode": "write" if rng.random() < 0.8 else "rewrite", "thread_safe": rng.random() < 0.7,
-                        "spec": rmeta(rng)[2]})
+                        "spec": rmeta(rng, numeric=numeric)[2]})
             reopened = ops[-1]["mode"] == "write"
             continue
         for i in ids:                   # data changes between the calls: last wins must be observable
@@ -884,7 +968,9 @@ def run(ctx):
     def enc_expected(obs):
         if obs is None or "error" in obs:
             return "(None, [])"
-        meta = "(Some (%s, %s, %s, %s))" % (sl(obs["name"]), sl(obs["description"]),
+        # a text column that does not come back as a str (e.g. '2024' read back as the int 2024) can never equal the model's string
+        tl = lambda x: sl(x) if isinstance(x, str) else sl("\x02not-a-str:%s:%r" % (type(x).__name__, x))
+        meta = "(Some (%s, %s, %s, %s))" % (tl(obs["name"]), tl(obs["description"]),
                                            ll(obs["parameters"], lambda p: enc_jv(describe(p))), ll(obs["costs"], lambda p: enc_jv(describe(p))))
         rows = []
         for k, (rid, text) in enumerate(obs["raw"]):
@@ -907,8 +993,9 @@ def run(ctx):
         if "error" in obs:
             fail("the read-mode view of the file cannot be built: %s" % obs["error"], case, "view raises")
             return
-        if obs["name"] != case["name"]:
-            fail("problem name read back %r, synchronised %r" % (obs["name"], case["name"]), case, "problem name")
+        if type(obs["name"]) is not type(case["name"]) or obs["name"] != case["name"]:
+            fail("problem name read back %r (%s), synchronised %r (%s)" % (obs["name"], type(obs["name"]).__name__, case["name"],
+                                                                          type(case["name"]).__name__), case, "problem name")
         for what, key in (("parameter", "params"), ("cost", "costs")):
             got = [canon(describe(p)) for p in obs["parameters" if key == "params" else "costs"]]
             req = [canon(p) for p in case[key]]
@@ -1618,6 +1705,26 @@ def run(ctx):
         history_case(gen_history(rng, strings=True), k)
         hist["special_string_histories"] += 1
         k += 1
+    # text that looks like a number wherever the store keeps text (red-team round 6): names of the problem / parameters / costs (several
+    # of one problem equal as numbers, different as text), description, description values and keys, custom data, feature keys
+    hist["numeric_text"] = {"histories": 0, "problem_names": [], "names_numerically_equal_within_one_problem": 0, "reopened": 0}
+    t_num = time.time()
+    for _ in range(ctx.pick(40, 300)):
+        if saturated():
+            break
+        case = gen_history(rng, numeric=True)
+        case["kind"] = "numeric-text"
+        history_case(case, k)
+        nt = hist["numeric_text"]
+        nt["histories"] += 1
+        nt["reopened"] += any(o["op"] == "reopen" for o in case["ops"])
+        if case["name"] not in nt["problem_names"] and len(nt["problem_names"]) < 60:
+            nt["problem_names"].append(case["name"])
+        for key in ("params", "costs"):
+            names = [dict(x["d"])["name"] for x in case[key]]
+            nt["names_numerically_equal_within_one_problem"] += any(len(names) > 1 and all(n in g for n in names) for g in NUM_GROUPS)
+        k += 1
+    hist["numeric_text"]["python_s"] = round(time.time() - t_num, 2)
     # sync_individual while a second connection holds the database lock (red-team round 3)
     t_lock = time.time()
     for _ in range(ctx.pick(8, 40)):
